@@ -310,6 +310,18 @@ def c17(run):
         elif kind == 3:   # over-long input, digits beyond the square
             txt = txt + "1234" + " 9"
         puzzles.append((2, txt, "r2-rand-%d" % i))
+    # "whitespace in the puzzle text is ignored": one layout per white-space character (Unicode White_Space: ASCII blanks,
+    # vertical tab, form feed, CRLF, NEL, no-break space, thin space, line separator, ideographic space), between the rows and
+    # inside them
+    for wi, ws in enumerate([" ", "\t", "\n", "\r\n", "\x0b", "\x0c", "\u0085", "\u00a0", "\u2009", "\u2028", "\u3000"]):
+        sol = sols2[wi % len(sols2)]
+        keep = rnd.sample(range(16), rnd.randint(3, 8))
+        b = blanks[wi % 4]
+        cells = "".join(sol[j] if j in keep else b for j in range(16))
+        txt = ws.join(cells[k:k + 4] for k in range(0, 16, 4)) + ws
+        if wi % 2 == 1:
+            txt = ws + txt[:2] + ws + txt[2:]
+        puzzles.append((2, txt, "r2-layout-%d" % wi))
     puzzles.append((2, sols2[0], "r2-full"))
     puzzles.append((2, "5" + "." * 15, "r2-digit-out-of-range"))
     files = []
